@@ -122,6 +122,10 @@ func (g *c05gen) loop(ints []string, depth int, inFunc bool, acc string) string 
 	if g.r.Intn(3) == 0 {
 		body = append(body, fmt.Sprintf("print(%s, \" \")", g.intExpr(in, 1)))
 	}
+	if g.r.Intn(4) == 0 {
+		// the loop variable escapes into a binding, a map and an array that are read after later loops reused the register
+		body = append(body, fmt.Sprintf("esc = %s", v), fmt.Sprintf("escm[%s] = %s", v, v), fmt.Sprintf("escl = {%s: [%s]}", v, v))
+	}
 	if len(g.funcs) > 0 && g.r.Intn(3) == 0 {
 		body = append(body, fmt.Sprintf("%s = %s + %s", acc, acc, g.call(in)))
 	}
@@ -246,7 +250,7 @@ func (g *c05gen) program() string {
 		g.arity[name] = n
 	}
 	acc := g.fresh("t")
-	parts = append(parts, acc+" = 0")
+	parts = append(parts, acc+" = 0", "esc = -1", "escm = {}", "escl = {}")
 	switch g.r.Intn(4) {
 	case 0: // deep nest
 		parts = append(parts, g.loop(nil, 4+g.r.Intn(7), false, acc))
@@ -266,7 +270,7 @@ func (g *c05gen) program() string {
 		_ = f
 		parts = append(parts, "println("+g.call(nil)+")")
 	}
-	parts = append(parts, "println("+acc+")")
+	parts = append(parts, "for zz = 0:9 { }", "println("+acc+", esc, escm, escl)")
 	return strings.Join(parts, "\n") + "\n"
 }
 
